@@ -39,7 +39,7 @@ def run(ck):
         cid = ck.new_id()
         text = rule_text(det)
         det_cases.append({"k": "det", "id": cid, "rule": text, "docs": docs, "sw": SWS, "reps": reps, "threads": 16 if thorough else 8})
-        # the same rule through the model (all hash orders enumerated) to classify order dependence
+        # the same rule through the model (under the crate's map order; trees compared structurally)
         rule_cases.append({"k": "rule", "id": cid, "rule": text, "docs": docs, "sw": SWS})
     # coverage families in which the optimiser's maps hold several keys (ties in every sort key,
     # merged nested blocks, matrices): the output order must not vary from call to call
@@ -151,7 +151,7 @@ def run(ck):
         "Non-trivial = something differed between calls." % (reps, SWS, 16 if thorough else 8))
     for c in det_cases[:2]:
         ck.sample({"rule": c["rule"][:300], "crate": impl[c["id"]][:500]})
-    common.compare(ck, rulebase.wire(rule_cases), implr, modelr, "optimiser under all hash orders", "optimise_order_irrelevant; shake_1/matrix by correspondence", direct_failed)
+    common.compare(ck, rulebase.wire(rule_cases), implr, modelr, "optimiser under the crate's map order (Model/Order.v)", "rust_ord_perm, optimise_order_irrelevant_in_scope; trees by correspondence", direct_failed)
     common.proof_gate(ck, bool(direct_failed))
 
 
